@@ -66,7 +66,7 @@ pub fn build(s: &C01Scn) -> WorldSys {
 	sys.dev = s.dev.clone();
 	sys.max_disconnects = s.max_disconnects;
 	let coop = s.ops.iter().any(|o| matches!(o, Op::Shutdown { .. }));
-	sys.oracles.push(Box::new(NoErrorOracle { allow_coop: coop, allow_force_by_user: false }));
+	sys.oracles.push(Box::new(NoErrorOracle { allow_coop: coop, allow_force_by_user: false, ..Default::default() }));
 	sys.oracles.push(Box::new(CommitmentOracle::new(infos)));
 	// set-up observations are not judged by the step oracles
 	sys.w.obs_cursor = sys.w.obs.len();
@@ -151,6 +151,25 @@ pub fn scenarios(tier: Tier) -> Vec<C01Scn> {
 			max_disconnects: 0,
 			tight: false,
 		});
+		// (iv-b) cooperative close while an HTLC in either direction is still being removed, with the
+		// connection dropping at any point of the shutdown / closing_signed exchange
+		for (from, to, dn) in [(1usize, 0usize, "ba"), (0, 1, "ab")] {
+			for closer in [0usize, 1] {
+				if !tier.is_thorough() && (ct != Ct::Static || (dn == "ab" && closer == 0)) {
+					continue;
+				}
+				v.push(C01Scn {
+					name: format!("{}-shutdown-disconnect-{}-by{}", n, dn, closer),
+					ct,
+					ops: vec![send(from, to, large, ClaimPolicy::Claim), Op::Shutdown { node: closer, chan: 0 }],
+					ops_first: false,
+					dev: with_disc.clone(),
+					k: if tier.is_thorough() { 3 } else { 2 },
+					max_disconnects: 1,
+					tight: false,
+				});
+			}
+		}
 		// (v) limit probes at every point of a payment flow (k <= 1 quick): sender-side exactness
 		for tight in [false, true] {
 			for node in [0usize, 1] {
@@ -174,7 +193,12 @@ pub fn scenarios(tier: Tier) -> Vec<C01Scn> {
 }
 
 pub fn to_runner(s: C01Scn, wall: Option<Duration>) -> Scenario {
-	let cfg = Config { max_deviations: s.k, horizon: 600, wall_cap: wall, ..Config::default() };
+	let mut cfg = Config { max_deviations: s.k, horizon: 600, wall_cap: wall, ..Config::default() };
+	if s.name.contains("shutdown-disconnect") {
+		// a recorded finding lives here: keep exploring past it so that other violations are still seen
+		cfg.branch_below_violations = true;
+		cfg.max_violations = 5000;
+	}
 	let desc = json!({"check": "C01", "name": s.name});
 	let name = s.name.clone();
 	Scenario { name, cfg, factory: Box::new(move || build(&s)), desc }
